@@ -22,9 +22,42 @@ type pkgInfo struct {
 
 var repo string
 
+// dieMsg is what die() panics with while a single output file is being generated
+type dieMsg string
+
+var inGen bool
+
 func die(format string, a ...any) {
-	fmt.Fprintf(os.Stderr, "xjs2v: "+format+"\n", a...)
+	msg := fmt.Sprintf(format, a...)
+	if inGen {
+		panic(dieMsg(msg))
+	}
+	fmt.Fprintf(os.Stderr, "xjs2v: %s\n", msg)
 	os.Exit(2)
+}
+
+// generate runs one generator; a refusal of the source affects only its own output
+// file, which then keeps its previous (stale) content. Reported as "FAILED <file>: why".
+func generate(out, name string, gen func() string) bool {
+	ok := true
+	func() {
+		defer func() {
+			if r := recover(); r != nil {
+				m, isDie := r.(dieMsg)
+				if !isDie {
+					panic(r)
+				}
+				fmt.Fprintf(os.Stderr, "xjs2v: FAILED %s: %s\n", name, string(m))
+				ok = false
+			}
+		}()
+		inGen = true
+		content := gen()
+		inGen = false
+		writeIfChanged(filepath.Join(out, name), content)
+	}()
+	inGen = false
+	return ok
 }
 
 func loadPkg(dir string) *pkgInfo {
@@ -91,8 +124,11 @@ func main() {
 	env.addPkg("sourcemap", sm)
 	env.addPkg("lexer", lex)
 
-	writeIfChanged(filepath.Join(out, "Effects.v"), genEffects([]*pkgInfo{tok, lex, par, as, sm, comp, dbg}))
-	writeIfChanged(filepath.Join(out, "Tables.v"), genTables(env, tok, lex, par, as, sm))
-	writeIfChanged(filepath.Join(out, "Preds.v"), genPreds(env, lex))
-	writeIfChanged(filepath.Join(out, "Printer.v"), genPrinter(env, as))
+	ok := generate(out, "Effects.v", func() string { return genEffects([]*pkgInfo{tok, lex, par, as, sm, comp, dbg}) })
+	ok = generate(out, "Tables.v", func() string { return genTables(env, tok, lex, par, as, sm) }) && ok
+	ok = generate(out, "Preds.v", func() string { return genPreds(env, lex) }) && ok
+	ok = generate(out, "Printer.v", func() string { return genPrinter(env, as) }) && ok
+	if !ok {
+		os.Exit(3) // partial: the files named in the FAILED lines are stale
+	}
 }
